@@ -199,6 +199,11 @@ func (f *FuncVC) Script(obs []*Oblig, timeoutMs int, models bool) string {
 	sb.WriteString(bs)
 	for _, o := range obs {
 		sb.WriteString("(push 1)\n")
+		if o.IsCover {
+			sb.WriteString("(set-option :timeout 1000)\n")
+		} else if timeoutMs > 0 {
+			sb.WriteString(fmt.Sprintf("(set-option :timeout %d)\n", timeoutMs))
+		}
 		sb.WriteString("(assert " + and(o.Reach, not(o.Goal)) + ")\n")
 		sb.WriteString("(check-sat)\n")
 		if models {
